@@ -1,0 +1,61 @@
+// SPDX-License-Identifier: MIT
+
+//go:build verif
+
+package rtcp
+
+// Verification hooks: exported wrappers around unexported functions so that an external harness can
+// exercise them directly. Compiled only with `-tags verif`; adds no behaviour to the package.
+
+// VerifGetPadding wraps getPadding.
+func VerifGetPadding(n int) int { return getPadding(n) }
+
+// VerifSetNBitsOfUint16 wraps setNBitsOfUint16.
+func VerifSetNBitsOfUint16(src, size, startIndex, val uint16) (uint16, error) {
+	return setNBitsOfUint16(src, size, startIndex, val)
+}
+
+// VerifAppendNBitsToUint32 wraps appendNBitsToUint32.
+func VerifAppendNBitsToUint32(src, n, val uint32) uint32 { return appendNBitsToUint32(src, n, val) }
+
+// VerifGetNBitsFromByte wraps getNBitsFromByte.
+func VerifGetNBitsFromByte(b byte, begin, n uint16) uint16 { return getNBitsFromByte(b, begin, n) }
+
+// VerifGet24BitsFromBytes wraps get24BitsFromBytes.
+func VerifGet24BitsFromBytes(b []byte) uint32 { return get24BitsFromBytes(b) }
+
+// VerifLocalMin wraps localMin.
+func VerifLocalMin(x, y uint16) uint16 { return localMin(x, y) }
+
+// VerifWireSize wraps wireSize.
+func VerifWireSize(v interface{}) int { return wireSize(v) }
+
+// VerifStringify wraps stringify.
+func VerifStringify(p Packet) string { return stringify(p) }
+
+// VerifUnmarshalOne wraps unmarshal (one frame of a datagram).
+func VerifUnmarshalOne(b []byte) (Packet, int, error) { return unmarshal(b) }
+
+// VerifCCFBBlockMarshal wraps CCFeedbackReportBlock.marshal.
+func VerifCCFBBlockMarshal(b CCFeedbackReportBlock) ([]byte, error) { return b.marshal() }
+
+// VerifCCFBBlockUnmarshal wraps CCFeedbackReportBlock.unmarshal.
+func VerifCCFBBlockUnmarshal(b *CCFeedbackReportBlock, raw []byte) error { return b.unmarshal(raw) }
+
+// VerifCCFBBlockLen wraps CCFeedbackReportBlock.len.
+func VerifCCFBBlockLen(b *CCFeedbackReportBlock) int { return b.len() }
+
+// VerifCCFBMetricMarshal wraps CCFeedbackMetricBlock.marshal.
+func VerifCCFBMetricMarshal(b CCFeedbackMetricBlock) ([]byte, error) { return b.marshal() }
+
+// VerifCCFBMetricUnmarshal wraps CCFeedbackMetricBlock.unmarshal.
+func VerifCCFBMetricUnmarshal(b *CCFeedbackMetricBlock, raw []byte) error { return b.unmarshal(raw) }
+
+// VerifTWCCPacketLen wraps TransportLayerCC.packetLen.
+func VerifTWCCPacketLen(t *TransportLayerCC) uint16 { return t.packetLen() }
+
+// VerifSetupBlockHeader wraps ReportBlock.setupBlockHeader.
+func VerifSetupBlockHeader(b ReportBlock) { b.setupBlockHeader() }
+
+// VerifUnpackBlockHeader wraps ReportBlock.unpackBlockHeader.
+func VerifUnpackBlockHeader(b ReportBlock) { b.unpackBlockHeader() }
